@@ -1,5 +1,6 @@
 (** Vocabulary for stating the properties of the aggregation layer (yearly summary, account
     balances, overdraft guard, date windows) in their own terms.  Definitions only. *)
+From Coq Require Import Sorted.
 From RP2V Require Import Base.Prelude Base.Time Base.Dec Base.Sorting Base.Assoc Model.Types Model.Generated Model.Txn
   Model.Matcher Model.MatchSpec Model.FracSpec Model.Pipeline Model.Computed.
 Open Scope Z_scope.
@@ -113,3 +114,18 @@ Definition compute_tax (period from_day to_day : Z) (allow : bool) (exs hos : li
   | Err e => Err e
   | Ok fs => compute period from_day to_day allow exs hos t fs
   end.
+
+(** * views *)
+(** [view] shows rows of [all] that are dated inside the window, in the same order, and is an initial
+    segment of the rows of [all] dated in the window *)
+Definition window_view {A} (day : A -> Z) (from_day to_day : Z) (all view : list A) : Prop :=
+  (forall x, In x view -> In x all /\ from_day <= day x <= to_day) /\
+  exists rest, filter (fun x => in_window from_day to_day (day x)) all = view ++ rest.
+(** local dates never decrease with the instant (true when all timestamps carry the same UTC offset) *)
+Definition dates_monotone (t : txs) : Prop :=
+  forall x y, In x (replay_order t) -> In y (replay_order t) -> t_us x <= t_us y -> txn_day x <= txn_day y.
+(** the three transaction lists are sorted by instant (what [build] produces) *)
+Definition time_sorted (t : txs) : Prop :=
+  StronglySorted (fun a b => in_us a <= in_us b) (t_ins t) /\
+  StronglySorted (fun a b => out_us a <= out_us b) (t_outs t) /\
+  StronglySorted (fun a b => intra_us a <= intra_us b) (t_intras t).
